@@ -71,6 +71,12 @@ func (h *ConsistentHasher) AddDestination(d *dest.Destination) {
 		// original Carbon code. Note that the server component excludes
 		// the port.
 		server := strings.Split(d.Addr, ":")
+		if strings.HasPrefix(d.Addr, "[") {
+			// an IPv6 server is written in brackets ([server]:port); carbon hashes it without them
+			if end := strings.Index(d.Addr, "]"); end > 0 {
+				server = []string{d.Addr[1:end]}
+			}
+		}
 		keyBuf.WriteString("('")
 		keyBuf.WriteString(server[0])
 		keyBuf.WriteString("', ")
